@@ -156,6 +156,9 @@ def try_replay(prop, v, P, REG, repo):
     confirmed = False
     why = ""
     allowed = meta.get("allowed")
+    if allowed is not None:
+        # contract names may be qualified (module:Class, package.Class); the observation lists bare class names of the MRO
+        allowed = sorted({a.split(":")[-1].split(".")[-1] for a in allowed} | set(allowed))
     if obs.get("kind") == "harness-error":
         return False, {"request": req, "observation": obs}
     expected = inputs.get("expected")
